@@ -512,10 +512,17 @@ Definition f3_rules : list rule :=
     mkRule KSend false 0 None None None None None DBUS_MAXIMUM_MESSAGE_UNIX_FDS 0 false false false TTrue false ].
 Definition f3_msg : msg := mkMsg 1 (Some DBUS_PATH_DBUS_str) (Some DBUS_INTERFACE_DBUS_str) (Some [71; 101; 116; 73; 100]) None (Some DBUS_SERVICE_DBUS_str) None 0 0 2 false.
 
+(* guarded by the regenerated condition, so that the development also builds once bus/policy.c is fixed (then the
+   hypothesis is false by computation, and [optimize_if_condition_ok] applies instead) *)
 Theorem optimize_sound_refuted :
+  optimizer_condition_ok = false ->
   exists rules rr recv reg m,
     msg_wf m = true /\ check_can_send (optimize rules) rr recv reg m <> check_can_send rules rr recv reg m.
-Proof. exists f3_rules, false, None, [], f3_msg. split; vm_compute; [reflexivity | discriminate]. Qed.
+Proof.
+  intros E.
+  first [ exfalso; vm_compute in E; discriminate
+        | exists f3_rules, false, None, [], f3_msg; split; vm_compute; [reflexivity | discriminate] ].
+Qed.
 
 (* ------------------------------------------------------------------ combined statements used by Props/C06.v *)
 Theorem send_literal rules rr eav recv reg m :
